@@ -204,6 +204,25 @@ pub fn run_case(ctx: &Ctx, case: &Case) -> Outcome {
                 let a = en[k].clone();
                 c.perform(&a);
             }
+            // "writes accepted by the primary": while node 0 re-runs the election that the join triggered it is not the
+            // primary (what it accepts then is forwarded, to nobody); the command waits until it is primary again
+            for _ in 0..20_000 {
+                if c.role(0) == Some(nundb::bo::ClusterRole::Primary) {
+                    break;
+                }
+                let en = c.enabled();
+                if en.is_empty() {
+                    if !c.run_continue(&mut |_| 0, 1) {
+                        continue;
+                    }
+                    break;
+                }
+                let a = en[0].clone();
+                c.perform(&a);
+            }
+            if c.role(0) != Some(nundb::bo::ClusterRole::Primary) {
+                continue;
+            }
             if let Some((db, k)) = issue(&mut c, &mut ctl, cmd) {
                 during_keys.insert((db, k));
             }
@@ -240,6 +259,9 @@ pub fn run_case(ctx: &Ctx, case: &Case) -> Outcome {
     // ---- and the builder: every sync `replicate` names a database and key the primary has, with the value the primary
     // holds; every key written while the joiner was away (and still live) is named
     let primary_now = if fail.is_none() { cluster_dump(&c, 0) } else { Default::default() };
+    if std::env::var("NV_C05_DEBUG").is_ok() {
+        eprintln!("  primary now: {:?}\n  trace tail: {:?}", primary_now, c.trace_tail(60));
+    }
     let mut named: BTreeSet<(String, String)> = BTreeSet::new();
     let mut saw_sync_lines = false;
     if std::env::var("NV_C05_DEBUG").is_ok() {
@@ -277,6 +299,7 @@ pub fn run_case(ctx: &Ctx, case: &Case) -> Outcome {
                     let dbi: usize = db.get(1..).and_then(|x| x.parse().ok()).unwrap_or(99);
                     if !key.starts_with("$") {
                         match primary_now.get(db).and_then(|m| m.get(key)) {
+                            None if during_keys.contains(&(dbi, key.to_string())) => {} // (removed again while the sync was in flight)
                             None => judge("C05|sync-names-a-key-the-primary-does-not-have".to_string(), format!("the primary sent {:?}: it has no key {:?} in database {:?}", line, key, db), &mut fail),
                             Some(pv) if !pv.2 && pv.0 != value && !during_keys.contains(&(dbi, key.to_string())) => {
                                 judge("C05|sync-sends-a-value-the-primary-does-not-hold".to_string(), format!("the primary sent {:?}; it holds {:?} for that key", line, pv.0), &mut fail)
@@ -326,7 +349,8 @@ pub fn run_case(ctx: &Ctx, case: &Case) -> Outcome {
         for (dbi, k) in away_updates.iter() {
             let db = format!("d{}", dbi);
             let live = primary_now.get(&db).and_then(|m| m.get(k)).map(|v| !v.2).unwrap_or(false);
-            if live && !named.contains(&(db.clone(), k.clone())) {
+            // (a key written again while the synchronisation was in flight travels as a live operation)
+            if live && !named.contains(&(db.clone(), k.clone())) && !during_keys.contains(&(*dbi, k.clone())) {
                 judge("C05|sync-omits-a-key-written-while-away".to_string(), format!("key {:?} of database {} was written while the joiner was away and is live on the primary, but no synchronisation message names it; named: {:?}", k, db, named), &mut fail);
             }
         }
